@@ -2101,6 +2101,31 @@ def called_method_exists_rule(index, rep, rid, modules):
                     continue        # a call into an imported module / package
                 rep.check(False, rid, fi.qualname, "call of `.%s()`, which nothing defines" % nm, fn_where(fi, c), "",
                           "%s calls `%s`: no class, function or attribute named `%s` exists anywhere under src/dendropy and no standard type has one, so the call raises AttributeError as soon as an input reaches this line" % (fi.qualname, norm(c)[:70], nm))
+            # ... and what is read off `self` exists: an attribute of the receiver that nothing under src/dendropy ever
+            # defines or stores (and that no getattr / hasattr probes for) fails for every input
+            probed = {a.args[1].value for a in ast.walk(fi.node) if isinstance(a, ast.Call) and isinstance(a.func, ast.Name) and a.func.id in ("hasattr", "getattr") and len(a.args) > 1 and isinstance(a.args[1], ast.Constant)}
+            in_try = set()
+            for t in ast.walk(fi.node):
+                if isinstance(t, ast.Try) and any(h.type is None or "AttributeError" in norm(h.type) or norm(h.type) in ("Exception", "BaseException") for h in t.handlers):
+                    in_try |= {id(y) for st in t.body for y in ast.walk(st)}
+            dynamic = False
+            if fi.cls is not None:
+                for c_ in index.mro(fi.cls):
+                    if "__getattr__" in c_.methods or "__getattribute__" in c_.methods:
+                        dynamic = True
+                    for mf_ in c_.methods.values():
+                        for a in ast.walk(mf_.node):
+                            if isinstance(a, ast.Call) and isinstance(a.func, ast.Name) and a.func.id == "setattr" and len(a.args) > 1 and not isinstance(a.args[1], ast.Constant):
+                                dynamic = True      # attributes under computed names (the alphabets' per-symbol attributes)
+            for x in ast.walk(fi.node):
+                if dynamic:
+                    break
+                if isinstance(x, ast.Attribute) and isinstance(x.ctx, ast.Load) and isinstance(x.value, ast.Name) and x.value.id == "self" and fi.cls is not None:
+                    n += 1
+                    if x.attr in known or x.attr in probed or id(x) in in_try or x.attr.startswith("__"):
+                        continue
+                    rep.check(False, rid, fi.qualname, "read of `self.%s`, which nothing defines" % x.attr, fn_where(fi, x), "",
+                              "%s reads `self.%s`: nothing under src/dendropy defines or stores an attribute of that name, so every call of this method fails with AttributeError (a leftover of an older interface)" % (fi.qualname, x.attr))
     return n
 
 
